@@ -45,6 +45,15 @@ native_unit("serde_native", "winter-utils", "utils/core", "native/serde_bounded.
             "NATIVE EXECUTION, not a proof: value lists in the file (both ends of every vint64 length class; containers of 0, 1, 2, 127..129, 255..257, 300 elements; multi-byte UTF-8 strings; nested containers; 1..6-tuples); reader chunk sizes 1, 2, 3, 7, 255, 256, 257")
 
 
+verus_unit("slicereaderv", "slicereaderv", ["C13", "C06", "C12"], [
+    "SliceReader::new (position 0, representation invariant pos <= len)",
+    "SliceReader::check_eor (Ok exactly when the requested number of bytes is left, for every request up to usize::MAX; no overflow)",
+    "SliceReader::read_u8 / peek_u8 (the byte at the position; read advances by one, peek does not move; UnexpectedEOF exactly at the end)",
+    "SliceReader::read_slice (Ok exactly when len bytes are left: bytes pos .. pos + len, position advanced by len; otherwise UnexpectedEOF and the position unchanged; every len)",
+    "SliceReader::read_array (the same for every constant length N; copy_from_slice is an assumed std contract)",
+    "SliceReader::has_more_bytes (true exactly when a byte is left)"])
+
+
 verus_unit("serdev", "serdev", ["C12", "C06"], [
     "ByteReader::read_many (every count and element type: returns exactly what `count` successive element decodings return and consumes exactly their bytes; Err exactly when one of them fails; the pre-allocation request never exceeds 4096 elements whatever the untrusted count is)",
     "ByteWriter::write_many (appends the concatenation of the element encodings, in order)",
